@@ -39,3 +39,14 @@ Proof. repeat split; reflexivity. Qed.
 Theorem Consts_cf_intervals :
   wire_CFCheckptInterval = 1000 /\ wire_MaxCFHeadersPerMsg = 2000 /\ neutrino_maxCFCheckptsPerQuery = 2.
 Proof. repeat split; reflexivity. Qed.
+
+(* The client's sync logic has no stall detection of its own for the header
+   sync peer (see C04, finding F-C04-2): the only thing that ever replaces a
+   sync peer that does not answer getheaders is btcd's stall handler, which
+   the peer configuration must therefore leave enabled.  Transaction relay
+   stays off and the protocol version is the addrv2 one (the netsim nodes and
+   the models of the handshake assume it). *)
+Theorem Consts_peer_config :
+  neutrino_peercfg_DisableStallHandler = 0 /\ neutrino_peercfg_DisableRelayTx = 1 /\
+  neutrino_peercfg_ProtocolVersion = 70016.
+Proof. repeat split; reflexivity. Qed.
